@@ -58,6 +58,7 @@ def setLedger (ls : List (String × Ledger)) (k : String) (g : Ledger) : List (S
 
 def parseHealth : String → Option Health
   | "pass" => some .pass | "queue" => some .queue | "block" => some .block | "panic" => some .panic
+  | "calcpanic" => some .calcPanic
   | _ => none
 
 def parseOp (key kind : String) (args : List String) : Option Op :=
@@ -77,6 +78,15 @@ def handle (d : DS) : List String → Option (DS × String)
       some ({ d with st := (step d.st 0 (.setParams L C)).1 }, "ok")
   | "tx" :: h :: key :: kind :: args => do
       let h ← parseInt h
+      -- `calcpanic:<pool units>`: the implementation's payout calculation panicked on the pre-state.  The
+      -- driver accepts that as an environment value only when the stored facts explain it — the provider
+      -- record holds 0 units (unitsToClaim = 0) or the pool has 0 units; a panic of the calculation on
+      -- ordinary inputs is NOT predicted (the model then answers as if it had passed: a mismatch).
+      let args := args.map (fun a =>
+        if a.startsWith "calcpanic:" then
+          let explained := unitsOf (d.st.lps key) == 0 || (a.drop 10).toString == "0"
+          if explained then "calcpanic" else "pass"
+        else a)
       let op ← parseOp key kind args
       let r := step d.st h op
       some ({ d with st := r.1 }, s!"{r.2.toString} {showLP (r.1.lps key)}")
